@@ -74,7 +74,10 @@ func c16RunFull(v asmVariant, ops []asmOp, split, resume, mode int, slack int, d
 // c16RunShape: inPlace=true gives every clone the free tail of its parent's own buffer as target
 // (p.Clone(buf[p.Len():])), so that Append copies the bytes onto themselves.
 func c16RunShape(v asmVariant, ops []asmOp, split, resume, mode int, slack int, decoy, dry, inPlace bool) string {
-	const roomy = 512
+	roomy := 512
+	if len(ops) > 8 {
+		roomy = 16384 // the long programs
+	}
 	mk := func(capacity int) *asm.Emitter {
 		if dry {
 			return newRealEmitter(v, -1)
@@ -390,6 +393,31 @@ func runC16(r *report.Run) {
 	}
 	st += nf
 	r.Set("flag_sweep_cases", nf)
+	// long programs (120 and 300 calls): lists of lines, labels and references grow well past their first
+	// capacity steps; splits at a few points, every buffer shape and mode
+	var nl int64
+	for _, v := range deep {
+		for salt, n := range []int{120, 300} {
+			ops := asmLongProgram(n, salt)
+			for _, split := range []int{0, 1, n / 3, n / 2, n - 1, n} {
+				for _, resume := range []int{split, (split + n) / 2, n} {
+					if resume < split {
+						continue
+					}
+					for mode := 0; mode <= 2; mode++ {
+						for shape := 0; shape < 3; shape++ {
+							nl++
+							if d := c16RunShape(v, ops, split, resume, mode, 99, false, shape == 1, shape == 2); d != "" {
+								r.ViolationSized("unexplained:clone-append", fmt.Sprintf("%+v long program (%d calls, salt %d) split %d resume %d mode %d shape %d: %s", v, n, salt, split, resume, mode, shape, d), asmHistory{Variant: v, Ops: opNames(ops), Capacity: 512, Split: split}, n)
+							}
+						}
+					}
+				}
+			}
+		}
+	}
+	st += nl
+	r.Set("long_program_cases", nl)
 	depth := fmt.Sprintf("%d (all %d variants, with Append capacity edges) and %d (2 variants)", d1, len(stage1), d2)
 	r.Set("states", st)
 	r.Set("transitions", trans)
